@@ -230,12 +230,25 @@ PAYLOADS = [
     ('<!DOCTYPE a [<!NOTATION n SYSTEM "n"><!ENTITY u SYSTEM "u" NDATA n>]><a/>', True),
     ('<!DOCTYPE a SYSTEM "http://example.invalid/x.dtd"><a/>', True),
     ('<!-- c --><?pi x?><!DOCTYPE a [<!ENTITY a1 "1"><!ENTITY a2 "&a1;&a1;">]><a>&a2;</a>', True),
+    ('<?xml version="1.0" standalone="yes"?><!DOCTYPE a SYSTEM "http://example.invalid/x.dtd"><a/>', True),          # known finding (region)
 ]
-KINDS = ["text", "bytes", "bytesio", "oneway"]
+STANDALONE = 11
+
+
+def region_standalone_external_dtd(p=None, **kw):
+    """known finding C13-standalone-external-dtd: payload #11 (standalone="yes" with an external DTD subset reference)"""
+    return p == STANDALONE
+
+
+def _in_open_region(fn, **kw):
+    from engine.known import open_regions
+    return any(globals()[pred](**kw) for pred in open_regions(__name__, fn))
+
+KINDS = ["text", "bytes", "bytesio", "oneway", "bytes-utf16", "bytesio-utf16be-decl"]
 
 
 def pre_payload(fn, p, k):
-    return 0 <= p < len(PAYLOADS) and 0 <= k < len(KINDS)
+    return 0 <= p < len(PAYLOADS) and 0 <= k < len(KINDS) and not _in_open_region(fn, p=p, k=k)
 
 
 def _source(text, kind):
@@ -245,6 +258,11 @@ def _source(text, kind):
         return text.encode()
     if kind == "bytesio":
         return io.BytesIO(text.encode())
+    if kind == "bytes-utf16":
+        return text.replace('<?xml version="1.0"?>', '').encode('utf-16')          # BOM, no XML declaration
+    if kind == "bytesio-utf16be-decl":
+        body = text.replace('<?xml version="1.0"?>', '')
+        return io.BytesIO(b'\xfe\xff' + ('<?xml version="1.0" encoding="UTF-16"?>' + body).encode('utf-16-be'))
     return _OneWay(text.encode())
 
 
@@ -278,7 +296,7 @@ class _SubResource(XMLResource):
 
 
 def pre_role(fn, p, r):
-    return 0 <= p < len(PAYLOADS) and 0 <= r < len(ROLES)
+    return 0 <= p < len(PAYLOADS) and 0 <= r < len(ROLES) and not _in_open_region(fn, p=p, r=r)
 
 
 def _role_schema():
